@@ -370,14 +370,26 @@ def html_doc(blocks, tight=False):
     return ''.join(html_block(b, tight) for b in blocks)
 
 
-def list_is_loose(b, o):
-    """computed from the layout the writer produced"""
+def ends_with_empty_item(b):
+    """does block b end (at its last line) with an empty list item?"""
+    if b.kind != 'list':
+        return False
+    last = b.items[-1]
+    return len(last) == 0 or ends_with_empty_item(last[-1])
+
+
+def list_is_loose(b, o, swallow=False):
+    """computed from the layout the writer produced. swallow=True is the defect model of the recorded finding
+    "blank line after an empty nested list item is consumed": such a blank line does not count."""
     if len(b.items) > 1 and o['loose_items']:
-        return True
+        if not swallow or any(not (it and ends_with_empty_item(it[-1])) for it in b.items[:-1]):
+            return True
     for it in b.items:
         kids = [c for c in it if c.kind != 'linkdef']
         for a, c in zip(kids, kids[1:]):
             if getattr(c, '_blank_before', True):
+                if swallow and ends_with_empty_item(a):
+                    continue
                 return True
     return False
 
@@ -430,20 +442,67 @@ def html_block(b, tight, o=None):
     raise KeyError(k)
 
 
-def mark_looseness(blocks, o):
+def mark_looseness(blocks, o, swallow=False):
     for b in blocks:
         if b.kind == 'quote':
-            mark_looseness(b.children, o)
+            mark_looseness(b.children, o, swallow)
         elif b.kind == 'list':
-            b._loose = list_is_loose(b, o)
+            b._loose = list_is_loose(b, o, swallow)
             for it in b.items:
-                mark_looseness(it, o)
+                mark_looseness(it, o, swallow)
 
 
 def expected_html(blocks, o):
     """call after to_markdown (which records where blank lines were written)"""
     mark_looseness(blocks, o)
     return html_doc(blocks)
+
+
+def rewrite_setext_in_quotes(blocks, o, inside=False):
+    """defect model of the recorded finding "setext heading inside a block quote is not recognised": below a quote a
+    setext heading reads as a paragraph whose last line is the underline; a '-' underline of three or more characters is a
+    thematic break after that paragraph"""
+    out = []
+    for b in blocks:
+        if b.kind == 'setext' and inside:
+            if b.level == 1:
+                nb = N('para', lines=list(b.lines) + ['=' * o['setext_len']])
+                nb._blank_before = getattr(b, '_blank_before', False)
+                out.append(nb)
+            elif o['setext_len'] >= 3:
+                nb = N('para', lines=list(b.lines))
+                nb._blank_before = getattr(b, '_blank_before', False)
+                out.append(nb)
+                x = N('hr')
+                x._blank_before = False
+                out.append(x)
+            else:
+                # '-' or '--': neither a thematic break nor (being empty) a list item that may interrupt a paragraph
+                nb = N('para', lines=list(b.lines) + ['-' * o['setext_len']])
+                nb._blank_before = getattr(b, '_blank_before', False)
+                out.append(nb)
+        elif b.kind == 'quote':
+            nb = N('quote', children=rewrite_setext_in_quotes(b.children, o, True))
+            nb._blank_before = getattr(b, '_blank_before', False)
+            out.append(nb)
+        elif b.kind == 'list':
+            nb = N('list', ordered=b.ordered, start=b.start, items=[rewrite_setext_in_quotes(it, o, inside) for it in b.items])
+            if getattr(b, 'two', False):
+                nb.two = True
+            nb._blank_before = getattr(b, '_blank_before', False)
+            out.append(nb)
+        else:
+            out.append(b)
+    return out
+
+
+def expected_html_under_defects(blocks, o, setext_in_quote=False, swallow_blank=False):
+    """HTML the tree would have if exactly the named recorded defects were present (call after to_markdown)"""
+    bl = rewrite_setext_in_quotes(blocks, o) if setext_in_quote else blocks
+    mark_looseness(bl, o, swallow_blank)
+    h = html_doc(bl)
+    mark_looseness(blocks, o)
+    return h
 
 
 # ------------------------------------------------------------------------------------------- predicates on trees
